@@ -32,7 +32,7 @@ from vlib import f2b, fs2b, b2fs
 from props import c01
 
 ID = "C02"
-GEN = ["Leaves", "Combinators"]
+GEN = ["Leaves", "Combinators", "Planar"]
 RULE = ("log-det outputs (methods transform_and_log_det / inverse_and_log_det) of expression trees over generated leaves "
         "(Affine/Loc/Scale with both signs, Exp, SoftPlus, Tanh, LeakyTanh, RationalQuadraticSpline with perturbed raw parameters) "
         "under generated Chain/Invert, depth<=3, on boundary-directed inputs (interval ends, knots, ±max_val, tanh(max_val), ±1, 0, "
@@ -207,6 +207,11 @@ def corr(c, tier, rng):
         else:
             report(c, line, got, want, info, bad)
     resolve_pending(c, pending)
+    # --- Planar (generated, both activations, conditional through get_planar) and TriangularAffine (hand model):
+    #     points and log-dets of transform_and_log_det / inverse_and_log_det (and the plain methods)
+    from props import planar_tri
+    planar_tri.corr_planar(c, tier, rng)
+    planar_tri.corr_triangular(c, tier, rng)
     oracle_ties(c, tier, rng)
 
 
